@@ -67,10 +67,12 @@ def cmd_check(a) -> int:
                      f'{" ..." if len(sigs) > 4 else ""})')
     if new_sigs and not a.no_minimise:
         from dst import shrink
-    for sig in new_sigs:
+    for k_sig, sig in enumerate(new_sigs):
         res, v = vd['first'][sig]
         mini = None
-        if not a.no_minimise:
+        # minimise the first few new signatures; the rest get their full
+        # (exactly replayable) recording
+        if not a.no_minimise and k_sig < 3:
             try:
                 mini = shrink.minimise(prop, res, v, budget_s=a.min_budget)
             except Exception as e:  # minimiser trouble never hides a bug
